@@ -3,6 +3,7 @@ package basestore
 import (
 	"context"
 
+	"berty.tech/go-orbit-db/iface"
 	"berty.tech/go-orbit-db/internal/vstub"
 	"berty.tech/go-orbit-db/internal/vstubodb"
 	"berty.tech/go-orbit-db/stores"
@@ -101,6 +102,38 @@ func VerifC09Isolation() {
 		vstub.Assert(b.ReplicationStatus().GetMax() == 0, "C09 the other database's replication maximum is unchanged")
 	}
 	vstub.Assert(len(dc.Sent) == 0, "C09 nothing is sent on the direct channel without a peer joining")
+
+	// ---- both databases are written to at about the same time: whatever the
+	// interleaving (preemption bound P), each topic only ever carries heads of
+	// its own database
+	p := vstub.Param("P", 1)
+	hb.OnEmit = nil
+	vstub.ExploreSchedules(p)
+	if _, err := b.AddOperation(ctx, operation.NewOperation(nil, "ADD", []byte("b-own")), nil); err != nil {
+		vstub.Fail("C09 AddOperation on b failed")
+	}
+	if _, err := a.AddOperation(ctx, operation.NewOperation(nil, "ADD", []byte("a-own")), nil); err != nil {
+		vstub.Fail("C09 AddOperation on a failed")
+	}
+	vstub.WaitIdle()
+	vstub.ExploreSchedules(0)
+	vstub.Cover("interleaved-writes")
+	checkTopic := func(t *vstubodb.Topic, st *BaseStore, who string) {
+		for _, payload := range t.Published {
+			msg := &iface.MessageExchangeHeads{}
+			if err := st.messageMarshaler.Unmarshal(payload, msg); err != nil {
+				vstub.Fail("C09 a published message does not decode")
+				return
+			}
+			vstub.Assert(msg.Address == st.id, "C09 a message on a database's topic names that database ("+who+")")
+			for _, h := range msg.Heads {
+				vstub.Assert(h.GetLogID() == st.id, "C09 a database's topic only carries heads of that database ("+who+")")
+			}
+		}
+	}
+	checkTopic(ta, a, "a")
+	checkTopic(tb, b, "b")
+	vstub.Assert(tb.NumPublished() >= 1, "C09 the write to b is announced on b's topic")
 }
 
 func openWithCid(name string, dbCid int, blocks *vstub.Blocks) (*BaseStore, *vstubodb.Env) {
